@@ -43,16 +43,20 @@ type valSpec struct {
 
 // cfgSpec is one fixture configuration: a look-back validator set and the protocol parameters in force.
 type cfgSpec struct {
-	Name      string
-	Vals      []valSpec
-	ProtoV    uint64    // ValidatorThreshold of the version in force
-	ProtoP    uint64    // ProposerThreshold of the version in force
-	Ths       []uint64  // threshold alphabet a forger may declare (contains ProtoV and ProtoP)
-	Voters    []int     // voters of the honest header (validator ids, 1-based)
-	Prop      int       // proposer of the honest header
-	Natural   bool      // p < 1 under the protocol thresholds: the genesis seed is searched until the honest committee has a quorum
-	Tail      bool      // natural, and moreover one honest voter's VRF output lies in the top 1% of the range (upper-tail branch of choose)
-	SaltHint  int       // start of the seed search
+	Name     string
+	Vals     []valSpec
+	ProtoV   uint64   // ValidatorThreshold of the version in force
+	ProtoP   uint64   // ProposerThreshold of the version in force
+	Ths      []uint64 // threshold alphabet a forger may declare (contains ProtoV and ProtoP)
+	Voters   []int    // voters of the honest header (validator ids, 1-based)
+	Prop     int      // proposer of the honest header
+	Natural  bool     // p < 1 under the protocol thresholds: the genesis seed is searched until the honest committee has a quorum
+	Tail     bool     // natural, and moreover one honest voter's VRF output lies in the top 1% of the range (upper-tail branch of choose)
+	SaltHint int      // start of the seed search
+	Family   string   // configurations of one family are EPOCHS of one chain: same validator main keys, one verifier engine (its caches
+	// live across them); the driver verifies their headers in configuration order within one process
+	Rekeyed   []int     // validators whose BLS key differs between the two epochs of the family
+	Gen       int       // BLS key generation the rekeyed validators have REGISTERED in this configuration (0 / 1)
 	CertRound bool      // the header under verification is at a certificate round (multiple of params.ACoCHTFrequency)
 	CVals     []valSpec // the CERTIFICATE look-back validator set (same identities, other stakes / status / kind)
 	ProtoC    uint64    // CertValThreshold of the version in force
@@ -86,6 +90,7 @@ func configs() []cfgSpec {
 	b := []valSpec{{"chamber", true, 3}, {"chamber", true, 4}, {"chamber", true, 5}, {"chamber", false, 6}, {"house", true, 4}}
 	c := []valSpec{{"chamber", true, 5}, {"chamber", true, 5}, {"house", false, 6}, {"chamber", false, 2}, {"chamber", true, 2}}
 	n := []valSpec{{"chamber", true, 12}, {"chamber", true, 10}, {"chamber", true, 8}, {"chamber", false, 10}, {"house", true, 9}}
+	e2 := []valSpec{{"chamber", true, 4}, {"chamber", true, 2}, {"chamber", true, 3}, {"chamber", false, 3}, {"house", true, 5}}
 	ca := []valSpec{{"chamber", true, 3}, {"chamber", true, 5}, {"chamber", false, 2}, {"chamber", true, 4}, {"house", true, 6}}
 	cn := []valSpec{{"chamber", true, 10}, {"chamber", true, 12}, {"chamber", false, 8}, {"chamber", true, 9}, {"house", true, 7}}
 	return []cfgSpec{
@@ -106,6 +111,10 @@ func configs() []cfgSpec {
 			CertRound: true, CVals: ca, ProtoC: 12, CVoters: []int{2, 1}},
 		{Name: "cert-N", Vals: n, ProtoV: 20, ProtoP: 6, Ths: []uint64{20, 6, 24, 2, 32}, Voters: []int{1, 2, 3}, Prop: 1, Natural: true,
 			CertRound: true, CVals: cn, ProtoC: 24, CVoters: []int{1, 2, 4}, SaltHint: 4},
+		// two epochs of one chain, verified by ONE engine in this order: in E2 validator 1 has re-registered with the same main key and a
+		// new BLS key, validators 2 and 3 have swapped stakes
+		{Name: "epoch-E1", Family: "E", Vals: a, ProtoV: 9, ProtoP: 9, Ths: []uint64{9, 1, 4, 12}, Voters: []int{1, 2}, Prop: 1, Rekeyed: []int{1}, Gen: 0},
+		{Name: "epoch-E2", Family: "E", Vals: e2, ProtoV: 9, ProtoP: 9, Ths: []uint64{9, 1, 4, 12}, Voters: []int{1, 3}, Prop: 1, Rekeyed: []int{1}, Gen: 1},
 	}
 }
 
@@ -175,6 +184,29 @@ type world struct {
 	cseat    [][][][][]int // the same with the certificate look-back set's stake / total
 	salt     int
 	csalt    int
+	bls2     []*fixture.Key // second-generation BLS keys (only the BLS part is used)
+	T        int            // index of the description being verified (sampling)
+	honest   *types.Header  // the honest header of the configuration (what the chain stores in the "known" variants)
+}
+
+// engines: one verifier engine per family (epochs of one chain share the engine and therefore its caches)
+var engines = map[string]*ucon.Server{}
+
+// blsKey returns the BLS identity validator v signs with: the one registered in this configuration (bk = 0) or the one it holds in
+// the sibling configuration (bk = 1).  They differ only for the rekeyed validators.
+func (w *world) blsKey(v, bk int) *fixture.Key {
+	rek := false
+	for _, r := range w.cfg.Rekeyed {
+		rek = rek || r == v
+	}
+	gen := 0
+	if rek {
+		gen = (w.cfg.Gen + bk) % 2
+	}
+	if gen == 1 {
+		return w.bls2[v]
+	}
+	return w.keys[v]
 }
 
 var blsMgr = bls.NewBlsManager()
@@ -187,7 +219,12 @@ func newWorld(id int, cfg cfgSpec) (*world, error) {
 		cfg.CVals = cfg.Vals
 	}
 	w := &world{id: id, cfg: cfg, nv: len(cfg.Vals), creds: map[[4]int]cred{}, sigs: map[string]bls.Signature{}}
-	w.keys = fixture.Keys("c01-"+cfg.Name, w.nv+1+cfg.Pad) // 1..nv modelled, nv+1 stranger, then the fillers
+	fam := cfg.Name
+	if cfg.Family != "" {
+		fam = "family-" + cfg.Family
+	}
+	w.keys = fixture.Keys("c01-"+fam, w.nv+1+cfg.Pad) // 1..nv modelled, nv+1 stranger, then the fillers
+	w.bls2 = fixture.Keys("c01-"+fam+"-bls2", w.nv+1)
 	w.vrfs = make([]vrf.PrivateKey, w.nv+2)
 	for i := 1; i <= w.nv+1; i++ {
 		sk, err := secp256k1VRF.NewVRFSigner(w.keys[i].Priv)
@@ -289,7 +326,7 @@ func (w *world) genesisValidators(vals []valSpec) core.GenesisValidators {
 			status = params.ValidatorOffline
 		}
 		gvals[k.Addr] = core.GenesisValidator{Name: fmt.Sprintf("v%d", i+1), OperatorAddress: k.Addr, Coinbase: k.Addr,
-			MainPubKey: k.PubComp, BlsPubKey: k.BlsPkB, Token: new(big.Int).Mul(big.NewInt(v.Stake), params.StakeUint),
+			MainPubKey: k.PubComp, BlsPubKey: w.blsKey(i+1, 0).BlsPkB, Token: new(big.Int).Mul(big.NewInt(v.Stake), params.StakeUint),
 			Role: role, Status: status}
 	}
 	return gvals
@@ -343,8 +380,15 @@ func (w *world) build(yp *params.YouParams) error {
 	w.genesis = g.ToBlock(db)
 	w.chain = &stubChain{yp: yp, headers: map[uint64]*types.Header{0: w.genesis.Header()}, sdb: state.NewDatabase(db)}
 	var err error
-	if w.eng, err = ucon.NewVRFServer(db); err != nil {
-		return err
+	if e, ok := engines[cfg.Family]; ok && cfg.Family != "" {
+		w.eng = e
+	} else {
+		if w.eng, err = ucon.NewVRFServer(db); err != nil {
+			return err
+		}
+		if cfg.Family != "" {
+			engines[cfg.Family] = w.eng
+		}
 	}
 	if w.vld, err = w.chain.GetVldReader(w.genesis.Header().ValRoot); err != nil {
 		return err
@@ -537,6 +581,7 @@ func (w *world) fixtureJSON() map[string]interface{} {
 		"voters": w.cfg.Voters, "prop": w.cfg.Prop, "total": w.total.Int64(), "seat": w.seatJSON(w.seat), "nidx": nIdx,
 		"pad": w.cfg.Pad, "salt": w.salt, "listIndex": w.realIdx[1 : w.nv+1], "tailVoter": w.tailVoter(),
 		"certRound": w.cfg.CertRound, "cvals": w.cfg.CVals, "protoC": w.cfg.ProtoC, "cvoters": append([]int{}, w.cfg.CVoters...), "ctotal": w.ctotal.Int64(),
+		"rekeyed": append([]int{}, w.cfg.Rekeyed...), "family": w.cfg.Family,
 		"cseat": w.seatJSON(w.cseat), "sidx": sidx, "cidx": cidx, "cpos": cpos, "round": w.round.Int64(), "csalt": w.csalt}
 }
 
@@ -554,6 +599,7 @@ type VoteD struct {
 	Sb int    `json:"sb"` // BLS signature: 0 = not in the aggregate, 1 = over this block's hash, 2 = over another block's hash
 	Sr int    `json:"sr"` // 1 = this round, 2 = another round
 	Si int    `json:"si"` // round index in the signed payload
+	Bk int    `json:"bk"` // 0 = signed with the BLS key registered in this configuration, 1 = with the key of the sibling epoch
 	Ls int    `json:"ls"` // certificate votes: list the VoterIdx was taken from, 1 = certificate look-back set, 2 = stake look-back set
 }
 
@@ -604,12 +650,12 @@ func payload(hash common.Hash, round *big.Int, idx int) []byte {
 	return append(append(append([]byte{}, hash.Bytes()...), round.Bytes()...), b...)
 }
 
-func (w *world) sign(v int, pl []byte) bls.Signature {
-	k := fmt.Sprintf("%d/%x", v, pl)
+func (w *world) sign(v, bk int, pl []byte) bls.Signature {
+	k := fmt.Sprintf("%d/%d/%x", v, bk, pl)
 	if s, ok := w.sigs[k]; ok {
 		return s
 	}
-	s := w.keys[v].BlsSk.Sign(pl)
+	s := w.blsKey(v, bk).BlsSk.Sign(pl)
 	w.sigs[k] = s
 	return s
 }
@@ -634,7 +680,7 @@ func (w *world) voteList(vs []VoteD, agg string, cert bool, hashes [3]common.Has
 		_, sv.Proof = w.proofFor(v.V, v.Cd, v.Cs, v.Ci, v.Pb)
 		votes = append(votes, sv)
 		if v.Sb != 0 {
-			sigs = append(sigs, w.sign(v.V, payload(hashes[v.Sb], rounds[v.Sr], v.Si)))
+			sigs = append(sigs, w.sign(v.V, v.Bk, payload(hashes[v.Sb], rounds[v.Sr], v.Si)))
 		}
 	}
 	asig := infinity()
@@ -650,7 +696,7 @@ func (w *world) voteList(vs []VoteD, agg string, cert bool, hashes [3]common.Has
 		asig = append([]byte{}, asig...)
 		asig[len(asig)-1] ^= 0x01
 	case "unrelated":
-		asig = w.sign(w.nv+1, payload(hashes[1], rounds[1], idx)).Compress().Bytes()
+		asig = w.sign(w.nv+1, 0, payload(hashes[1], rounds[1], idx)).Compress().Bytes()
 	}
 	return votes, asig, nil
 }
@@ -728,6 +774,36 @@ func (w *world) buildHeader(d *Desc) (*types.Header, error) {
 	return h, nil
 }
 
+// honestDesc is the honest header of the configuration (Init of the forging state machine).
+func (w *world) honestDesc() *Desc {
+	th := func(T uint64) int {
+		for t, x := range w.cfg.Ths {
+			if x == T {
+				return t + 1
+			}
+		}
+		panic("threshold not in the alphabet")
+	}
+	pos := func(x int) int {
+		if x < 0 {
+			return 0
+		}
+		return x
+	}
+	d := &Desc{Cfg: w.id, DeclV: w.cfg.ProtoV, DeclP: w.cfg.ProtoP, Pidx: 1, Vidx: 1, Agg: "ok", Cf: "std", CAgg: "ok", DeclC: w.cfg.ProtoC, CfIdx: 1,
+		Prop: PropD{P: w.cfg.Prop, Ci: 1, Cs: stepProposal, Cd: 1, Pb: "ok", J: pos(w.seat[w.cfg.Prop][th(w.cfg.ProtoP)][1][stepProposal][1]), Prio: "ok"}}
+	for _, v := range w.cfg.Voters {
+		d.Votes = append(d.Votes, VoteD{V: v, Ci: 1, Cs: stepPrecommit, Cd: 1, Pb: "ok", J: pos(w.seat[v][th(w.cfg.ProtoV)][1][stepPrecommit][1]), Sb: 1, Sr: 1, Si: 1})
+	}
+	if w.cfg.CertRound {
+		d.Cf = "list"
+		for _, v := range w.cfg.CVoters {
+			d.CVotes = append(d.CVotes, VoteD{V: v, Ci: 1, Cs: stepCert, Cd: 3, Pb: "ok", J: pos(w.cseat[v][th(w.cfg.ProtoC)][1][stepCert][3]), Sb: 1, Sr: 1, Si: 1, Ls: 1})
+		}
+	}
+	return d
+}
+
 func guard(f func() error) (err error, pmsg string) {
 	defer func() {
 		if r := recover(); r != nil {
@@ -774,12 +850,68 @@ func verdict(ev map[string]interface{}, name string, err error, pmsg string) {
 	}
 }
 
-func (w *world) verify(d *Desc, all, ac bool) map[string]interface{} {
+func ok(err error, p string) bool { return err == nil && p == "" }
+
+// entry points of the real verifier; known = the stub chain already stores the honest header of this round (same hash as every
+// description that differs from it only in fields outside the hash)
+func (w *world) verifyAll(ev map[string]interface{}, h *types.Header, certHdr *types.Header, certVld state.ValidatorReader, sfx string, seal, hdr, side, ac bool) (accept, acAccept bool) {
+	if seal {
+		e, p := guard(func() error { return w.eng.VerifySeal(w.chain, h) })
+		verdict(ev, "seal"+sfx, e, p)
+		accept = accept || ok(e, p)
+		if p != "" && sfx == "" {
+			ev["panic"] = p
+		}
+	}
+	if hdr {
+		e, p := guard(func() error { return w.eng.VerifyHeader(w.chain, h, true) })
+		verdict(ev, "hdr"+sfx, e, p)
+		accept = accept || ok(e, p)
+		if sfx == "K" && !seal && w.T%2 == 1 {
+			// (sampled runs: VerifyHeaders shares verifyHeader with VerifyHeader; it sees every second known-chain description)
+		} else if p != "" {
+			// VerifyHeaders runs the same code in its own goroutine, without recover: the panic would kill the process (as it kills a node)
+			ev["hdrs"+sfx] = false
+			ev["hdrs"+sfx+"Panic"] = "not called: VerifyHeader panicked, VerifyHeaders would take the process down"
+		} else {
+			e, p = guard(func() error {
+				abort, results := w.eng.VerifyHeaders(w.chain, []*types.Header{h}, []bool{true})
+				defer close(abort)
+				return <-results
+			})
+			verdict(ev, "hdrs"+sfx, e, p)
+			accept = accept || ok(e, p)
+		}
+	}
+	if side {
+		blk := types.NewBlockWithHeader(h)
+		e, p := guard(func() error {
+			return w.eng.VerifySideChainHeader(&w.chain.yp.CaravelParams, w.seedHdr, w.vld, certHdr, certVld, blk, []*types.Block{w.parent})
+		})
+		verdict(ev, "side"+sfx, e, p)
+		accept = accept || ok(e, p)
+	}
+	if ac && w.cfg.CertRound {
+		// the light-client path: the header is verified using only its CHT certificates
+		e, p := guard(func() error { return w.eng.VerifyAcHeader(w.chain, h, nil) })
+		verdict(ev, "ac"+sfx, e, p)
+		acAccept = ok(e, p)
+	}
+	return
+}
+
+func (w *world) verify(d *Desc, all, ac, known, full bool) map[string]interface{} {
 	ev := map[string]interface{}{"ev": "Verify", "desc": d}
 	h, err := w.buildHeader(d)
 	if err != nil {
 		ev["skip"] = err.Error()
 		return ev
+	}
+	if w.honest == nil {
+		if w.honest, err = w.buildHeader(w.honestDesc()); err != nil {
+			ev["skip"] = err.Error()
+			return ev
+		}
 	}
 	var certHdr *types.Header
 	var certVld state.ValidatorReader
@@ -788,27 +920,20 @@ func (w *world) verify(d *Desc, all, ac bool) map[string]interface{} {
 		certHdr, certVld = w.certHeader(d.DeclC), w.cvld
 		w.chain.headers[certHdr.Number.Uint64()] = certHdr
 	}
-	e1, p1 := guard(func() error { return w.eng.VerifySeal(w.chain, h) })
-	verdict(ev, "seal", e1, p1)
-	accept := e1 == nil && p1 == ""
-	if all {
-		e2, p2 := guard(func() error { return w.eng.VerifyHeader(w.chain, h, true) })
-		verdict(ev, "hdr", e2, p2)
-		blk := types.NewBlockWithHeader(h)
-		e3, p3 := guard(func() error {
-			return w.eng.VerifySideChainHeader(&w.chain.yp.CaravelParams, w.seedHdr, w.vld, certHdr, certVld, blk, []*types.Block{w.parent})
-		})
-		verdict(ev, "side", e3, p3)
-		accept = accept || (e2 == nil && p2 == "") || (e3 == nil && p3 == "")
+	n := w.round.Uint64()
+	delete(w.chain.headers, n)
+	a1, c1 := w.verifyAll(ev, h, certHdr, certVld, "", true, all, all, ac)
+	// the same with a chain that already stores the honest header at this number: VerifyHeader / VerifyHeaders always, the others sampled
+	a2, c2 := false, false
+	// interesting only when the hash is the stored one (otherwise VerifyHeader refuses it before any consensus check: sampled)
+	if known && (full || h.Hash() == w.honest.Hash() || w.T%8 == 0) {
+		w.chain.headers[n] = w.honest
+		a2, c2 = w.verifyAll(ev, h, certHdr, certVld, "K", full, true, full, ac && full)
+		delete(w.chain.headers, n)
 	}
-	ev["accept"] = accept
-	if p1 != "" {
-		ev["panic"] = p1
-	}
-	if w.cfg.CertRound && ac {
-		// the light-client path: the header is verified using only its CHT certificates
-		e4, p4 := guard(func() error { return w.eng.VerifyAcHeader(w.chain, h, nil) })
-		verdict(ev, "ac", e4, p4)
+	ev["accept"] = a1 || a2
+	if _, has := ev["ac"]; has {
+		ev["ac"] = c1 || c2
 	}
 	return ev
 }
@@ -845,8 +970,9 @@ func run(env *drive.Env) error {
 		}
 		return nil
 	}
-	// all=1: every description goes through all entry points; all=0: VerifyHeader and VerifySideChainHeader see every fourth,
-	// VerifyAcHeader every second
+	// all=1: every description goes through all entry points in both chain states; all=0: VerifyHeader, VerifyHeaders and
+	// VerifySideChainHeader see every sixth, VerifyAcHeader every third, the "known header" chain state every description of forging
+	// depth <= 1 and every third of the others
 	all := env.Opt("all", "1") == "1"
 	var d Desc
 	for {
@@ -858,7 +984,8 @@ func run(env *drive.Env) error {
 		if err != nil {
 			return err
 		}
-		env.Emit(w.verify(&d, all || env.T%4 == 0, all || env.T%2 == 0))
+		w.T = env.T
+		env.Emit(w.verify(&d, all || env.T%6 == 0, all || env.T%3 == 0, all || d.D <= 1 || env.T%3 == 0, all))
 	}
 	return nil
 }
